@@ -44,6 +44,8 @@ EVENTS = [
     ('XCUST', b'XCUST now\r\n'),
     # a command pipelined in the same segment as the end-of-data line (accepted and over-size message)
     ('DATA-x+NOOP', b'DATA\r\nSubject: t\r\n\r\nx\r\n.\r\nNOOP\r\n'),
+    # content with a line that is a single period (sent as "..") and a command look-alike behind it
+    ('DATA-dots', b'DATA\r\nS: t\r\n\r\n..\r\nMAIL FROM:<in@body>\r\n.\r\n'),
     ('DATA-oversize+NOOP', b'DATA\r\n' + b'A' * 40 + b'\r\n.\r\nNOOP\r\n'),            # a command the application implements (it rewrites the reply it is handed)
 ]
 EV = dict(EVENTS)
